@@ -14,6 +14,7 @@ import (
 // the generator asked for ("config-rejected", "config-denotation").
 func (e *Env) PrepCase(c *Case, lim Limits) (q *relationtuple.RelationTuple, class, detail string, err error) {
 	e.Wipe()
+	e.cfgKey = ""
 	if _, err = e.ApplyConfig(c.Cfg); err != nil {
 		return nil, "config-rejected", err.Error(), nil
 	}
